@@ -103,6 +103,19 @@ func (e *Engine) resolveType(name string, pkg *types.Package) types.Type {
 	}
 	if i := strings.Index(name, "."); i >= 0 {
 		pn, tn := name[:i], name[i+1:]
+		if pn == "pb" {
+			// the conventional import alias of the generated protobuf package
+			for _, p := range e.AllPkgs {
+				if p.Types != nil && p.PkgPath == RepoModule+"/internal/proto" {
+					if o := p.Types.Scope().Lookup(tn); o != nil {
+						if t, ok := o.(*types.TypeName); ok {
+							return t.Type()
+						}
+					}
+				}
+			}
+			return nil
+		}
 		// imported by the current package under that name?
 		if pkg != nil {
 			for _, imp := range pkg.Imports() {
@@ -718,6 +731,15 @@ func (c *SpecCtx) evalCall(x *ECall) *V {
 		return boolV(and(eq(strLen(a.T), intLit(3)), dig(0), dig(1), dig(2)))
 	case "addrof":
 		// addrof(x.f): the address of an embedded struct field (e.g. &s.ircPrefix)
+		if id, isId := x.Args[0].(*EIdent); isId {
+			// addrof(v): the cell of an addressable local variable (var v T; ... &v)
+			if c.fr != nil && c.blk != nil {
+				if v, ok := c.fr.lookupVarAddr(id.Name); ok {
+					return v
+				}
+			}
+			c.fail("addrof(%s): not an addressable local variable", id.Name)
+		}
 		se, ok := x.Args[0].(*ESel)
 		if !ok {
 			c.fail("addrof expects a field selector")
@@ -740,6 +762,12 @@ func (c *SpecCtx) evalCall(x *ECall) *V {
 			c.fail("samearray expects two slices")
 		}
 		return boolV(eq(a.Sl.Arr, b.Sl.Arr))
+	case "sameslice":
+		a, b := c.eval(x.Args[0]), c.eval(x.Args[1])
+		if a.Sl == nil || b.Sl == nil {
+			c.fail("sameslice expects two slices")
+		}
+		return boolV(and(eq(a.Sl.Len, b.Sl.Len), or(eq(a.Sl.Len, intLit(0)), and(eq(a.Sl.Arr, b.Sl.Arr), eq(a.Sl.Off, b.Sl.Off)))))
 	case "hasprefix":
 		a, b := c.eval(x.Args[0]), c.eval(x.Args[1])
 		return boolV(and(app(SBool, "<=", strLen(b.T), strLen(a.T)), eq(strSub(a.T, intLit(0), strLen(b.T)), b.T)))
